@@ -40,7 +40,8 @@ Filter(o, cs, j) == IF j > Len(cs) THEN <<>> ELSE (IF Kept(o, cs[j]) THEN <<cs[j
 IsDig(c) == c >= 48 /\ c <= 57
 RECURSIVE DigitsVal(_, _, _)
 DigitsVal(v, k, acc) == IF k <= Len(v) /\ IsDig(v[k]) THEN DigitsVal(v, k + 1, acc * 10 + (v[k] - 48)) ELSE acc
-IsMarker(t) == t.k = "str" /\ Len(t.v) >= 2 /\ t.v[1] = 76 /\ IsDig(t.v[2])
+\* exactly L<digits>: a literal that a rule folded into a longer string is new code, not original code
+IsMarker(t) == t.k = "str" /\ Len(t.v) >= 2 /\ t.v[1] = 76 /\ \A k \in 2..Len(t.v) : IsDig(t.v[k])
 JudgeMarkers(o) ==
   LET b == Lex(o.outb, TRUE) IN
   LET okrun == o.status = "ok" IN
